@@ -64,14 +64,28 @@ def components(atoms, bonds):
     return out
 
 
+# what a formal charge allows: the valences of the isoelectronic neutral
+# element (O- like F, N+ like C, ...); an atom above the largest of them
+# cannot be part of a species
+CHARGED_MAX = {('O', -1): 1, ('O', 1): 3, ('N', 1): 4, ('N', -1): 2,
+               ('C', 1): 3, ('C', -1): 3, ('S', 1): 7, ('S', -1): 1,
+               ('P', 1): 4, ('P', -1): 6}
+
+
 def valence_ok(atoms, bonds):
-    # like the package's filter: default valence of the element, whatever
-    # the formal charge
+    # like the package's filter: within the default valence of the element
+    # whatever the formal charge, and within what the charge allows
     tot = [a[1] for a in atoms]
     for (i, j), o in bonds.items():
         tot[i] += o
         tot[j] += o
-    return all(t <= VALENCE[a[0]] for t, a in zip(tot, atoms))
+    for t, a in zip(tot, atoms):
+        if t > VALENCE[a[0]]:
+            return False
+        q = a[2] if len(a) > 2 else 0
+        if q and t > CHARGED_MAX.get((a[0], q), VALENCE[a[0]]):
+            return False
+    return True
 
 
 def from_canon(c):
